@@ -907,3 +907,5 @@ theorem cExpr_sim (m : Module) (ce : CE) (p : Program) (e : Expr) (hp : PureE e)
   | strict op o a b ho _ _ iha ihb => exact sim_strict m ce p op o ho a b iha ihb
   | and a b _ hb iha ihb => exact sim_logic m ce p true a b hb iha ihb
   | or a b _ hb iha ihb => exact sim_logic m ce p false a b hb iha ihb
+
+end NanoVerif
